@@ -193,6 +193,10 @@ def resync_worker(lines):
 
 def replay(case):
     k = case['kind']
+    if k == 'scale':
+        from . import c04
+        v = c04.check_scale(case['rseed'], sizes=(0x10000,))
+        return v and v[0][2]
     if k == 'resync':
         r = check_resync(case['prefix'], case['out'], case['type'], case['v'])
     elif k == 'concat':
@@ -221,6 +225,11 @@ CHECK_DEADLOCK FALSE
 
 def run(ctx):
     thorough = ctx.tier == 'thorough'
+    # scale: long concatenations and very long sysex messages parse back (shared with C04)
+    from . import c04
+    for key, case, msg in c04.check_scale(ctx.seed + 606, sizes=(0x10000,), nconcat=20000 if thorough else 3000):
+        ctx.violation('resync/' + key, case, msg)
+    ctx.replayed += 4
     maxlen = 5 if thorough else 4
     witness = {}
     pr = core.ParallelReplay(ctx, worker, batch_size=3000)
